@@ -212,6 +212,15 @@ func c14mSync(q mquery, rows []arow) ([]string, error) {
 }
 
 func c14mAsync(q mquery, rows []arow, expect int) ([]string, error) {
+	maps := make([]map[string]any, len(rows))
+	for i, r := range rows {
+		maps[i] = r.gomap()
+	}
+	return c14mAsyncMaps(q, maps, expect)
+}
+
+// c14mAsyncMaps emits the (fresh) row maps through Emit and collects what the synchronous sink receives
+func c14mAsyncMaps(q mquery, rows []map[string]any, expect int) ([]string, error) {
 	s, err := q.open()
 	if err != nil {
 		return nil, err
@@ -226,7 +235,7 @@ func c14mAsync(q mquery, rows []arow, expect int) ([]string, error) {
 		mu.Unlock()
 	})
 	for _, r := range rows {
-		s.Emit(r.gomap())
+		s.Emit(r)
 	}
 	n := func() int { mu.Lock(); defer mu.Unlock(); return len(out) }
 	deadline := time.Now().Add(3 * time.Second)
